@@ -9,6 +9,8 @@ scale-then-translate with scale**2*var = v and scale*spread = r (canonical
 terms); variance/std/moment/mean are defined by the textbook delegation chain;
 impose_support keeps exactly the listed weights and impose_unweighted zeroes
 exactly the listed ones, with negative indices normalised by the length.
+Round 4: impose_variance / impose_spread case analysis (unchanged only for zero
+statistic and zero target; nan only for degenerate samples).
 NOT decided: reaching targets numerically, medians/MADs/trimmed variants,
 distances and norms.
 """
